@@ -219,11 +219,11 @@ def run(ctx):
         lo, hi = py_range(5)
         natoms = sum(1 for ln in text.splitlines() if corpus.is_atom(ln))
         for mode in ("upper", "lower", "mixed", "negative", "descending", "hetero-descending", "restart-per-model", "all-equal",
-                     "restart-per-model-hy36"):
+                     "restart-per-model-hy36", "all-zero", "zero-based-per-model"):
             out = []
             k = 0
             for ln in text.splitlines():
-                if ln.startswith("MODEL") and mode.startswith("restart"):
+                if ln.startswith("MODEL") and (mode.startswith("restart") or mode == "zero-based-per-model"):
                     k = 0                        # the NMR habit: serials start again in every MODEL
                 if corpus.is_atom(ln):
                     k += 1
@@ -233,6 +233,10 @@ def run(ctx):
                         n = 100000 + k
                     elif mode == "all-equal":
                         n = 7
+                    elif mode == "all-zero":
+                        n = 0
+                    elif mode == "zero-based-per-model":
+                        n = k - 1
                     elif mode == "descending":
                         n = 90000 - k
                     elif mode == "hetero-descending":
